@@ -364,6 +364,9 @@ def check_main(pid, cli_tier=None):
     problems = []
     if not ok:
         problems.append('icontract could not be installed into .deps (contracts fall back to plain wrappers)')
+    from refmodel import selftest
+    for pr in selftest.run():
+        problems.append('reference model self-test (values printed in ISO/IEC 18004): %s' % pr)
     cases = mod.gen_cases(tier, seed)
     timeout_s = getattr(mod, 'TIMEOUT', {'quick': 900, 'thorough': 7200})[tier]
     dumps, probs = run_sharded(pid, cases, timeout_s, extra_args=[tier, str(seed)])
